@@ -7,7 +7,7 @@ From Coq Require Export ZArith List Bool Permutation.
 Export ListNotations.
 From GV Require Export Lpg.Model Lpg.Classes.
 From GV Require Import Lpg.ProofsBase Lpg.ProofsInv Lpg.ProofsLabel Lpg.ProofsIndex Lpg.ProofsCount
-  Lpg.ProofsAdj Lpg.ProofsDangling Lpg.ProofsZone.
+  Lpg.ProofsAdj Lpg.ProofsDangling Lpg.ProofsZone Lpg.ProofsConj.
 Open Scope Z_scope.
 
 (** label_index <-> node_labels, and only live nodes *)
@@ -51,6 +51,14 @@ Theorem index_ok : forall b ops key q,
   NoDup (find_by_prop s key q) /\ (forall n, In n (find_by_prop s key q) <-> In n (scan_by_prop s key q)).
 Proof. intros b ops key q H Hq. destruct (PI_run b ops H) as (B & P & I). apply index_ok_inv; assumption. Qed.
 Print Assumptions index_ok.
+
+(** find_nodes_by_properties (conjunction of equalities, evaluated through the property indexes where
+    there are any, starting from the most selective indexed condition) = the scan of the conjunction *)
+Theorem conj_index_ok : forall b ops conds,
+  hist_sets_dead (init b) ops = false -> (forall c, In c conds -> has_float_special (snd c) = false) ->
+  let s := run (init b) ops in forall n, In n (find_by_props s conds) <-> In n (scan_by_props s conds).
+Proof. exact find_by_props_ok_l. Qed.
+Print Assumptions conj_index_ok.
 
 (** the behaviour before the repair ebcbf15 (delete_node left the node in the index) *)
 Theorem index_ok_pre_refuted : exists ops key q n,
